@@ -245,7 +245,10 @@ class G:
                            lambda: f"indexed-repeat(${{{t}}}, ${{{rp}}}, 1) + {r()} > indexed-repeat(${{{t}}}, ${{{rp}}}, 2) or {L}",
                            lambda: f"{r()} = {L} or indexed-repeat(${{{t}}}, ${{{rp}}}, 1) + {r()} + indexed-repeat(${{{t}}}, ${{{rp}}}, 2) + {r()} > 3",
                            # an index argument with parentheses of its own
-                           lambda: f"indexed-repeat(${{{t}}}, ${{{rp}}}, count(${{{rp}}}) - (1)) = {L} or {r()} = ''"]
+                           lambda: f"indexed-repeat(${{{t}}}, ${{{rp}}}, count(${{{rp}}}) - (1)) = {L} or {r()} = ''",
+                           # a call inside the index argument of another call: each reference belongs to the innermost call around it
+                           lambda: f"indexed-repeat(${{{t}}}, ${{{rp}}}, indexed-repeat(${{{self.pick([x for x in inrep if self.in_repeat_names[x] == rp])}}}, ${{{rp}}}, position(..) - 1)) = {L}",
+                           lambda: f"indexed-repeat(${{{t}}}, ${{{rp}}}, 1 + indexed-repeat(${{{t}}}, ${{{rp}}}, 1)) = {L} or {r()} = ''"]
                 outer = self.repeat_parent.get(rp)
                 if outer:
                     # nested repeats: the five-argument form; index arguments may be calls, or mention the same names again
@@ -441,6 +444,9 @@ class G:
                                       else f"{col} != {self.lit()}")
             if P("p_randomize", 0.1):
                 c["parameters"] = "randomize=true" + (self.pick(["", " seed=42", " seed=${%s}" % self.pick(self.names) if self.names else ""]))
+                if "${" in c["parameters"] and P("_", 0.3):
+                    # the documented separators, with white space around them
+                    c["parameters"] = c["parameters"].replace(" seed=", self.pick([", seed= ", "; seed= ", ",seed =", " ;  seed=  "]), 1)
         elif base == "range" and P("p_params", 0.5):
             c["parameters"] = self.pick(["start=0 end=5 step=1", "start=1;end=10;step=2", "start=0.5 end=5.5 step=0.5", "end=20", "step=2, start=2",
                                            "start=0.5 end=10 step=1", "step=0.5 end=5", "start=1.5", "end=7.5 step=1", "start=0 end=1 step=0.1",
@@ -547,7 +553,9 @@ class G:
             f = self.pick(["cities.csv", "fruits.csv", "geo.geojson", "places.xml"])
             c = {"type": f"{sel} {f}", "name": self.name(), "label": self.text("L")}
             if self.p("_", 0.4):
-                c["parameters"] = self.pick(["value=code", "label=nm", "value=id2 label=t-l"])
+                # parameter names are case-insensitive, the column names they carry are not
+                c["parameters"] = self.pick(["value=code", "label=nm", "value=id2 label=t-l", "Value=CODE, Label=Name_EN", "VALUE=Id2;LABEL=T-l",
+                                             "value= Code , label=nm", "label = Nm , value = K"])
             if self.p("_", 0.4):
                 c["choice_filter"] = f"kind = ${{{self.pick(self.names)}}}" if self.names else "kind = 'x'"
             self.names.append(c["name"])
